@@ -180,6 +180,11 @@ def run(ctx):
         raise Infra("no accepted trace with a successful call: cannot run the self-test")
 
     ctx.sample({"trace": os.path.basename(files[0]), "events": results[0][4] - 1, "accepted": results[0][2]})
+    # NextID is one atomic step: concurrent callers of one client never share an identifier
+    ids = ctx.harness_json("system", ["c04-ids", "16", "150000" if thorough else "30000"], timeout=1800)
+    ctx.failures(ids["failures"])
+    ctx.traces += 1
+    ctx.extra["concurrent_calls_for_id_uniqueness"] = ids["evaluations"]
     ctx.extra.update({
         "behaviours_exported": exported, "behaviours_replayed": res["evaluations"],
         "distinct_behaviours": res["distinct"], "fail_count": res.get("fail_count"),
